@@ -81,9 +81,10 @@ var ErrInjected = errors.New("injected channel failure")
 // Chan is the instrumented, fault-injecting wrapper (E4) put around the
 // channel that is handed to the library.
 type Chan struct {
-	Name  string
-	inner channel.Channel
-	Yield int // Gosched calls between entry and exit of each operation
+	Name     string
+	inner    channel.Channel
+	Yield    int  // Gosched calls between entry and exit of each operation
+	LogSends bool // report every Send entry through onEvent
 
 	sendIn, recvIn, closeIn atomic.Int32
 	nSend, nRecv, nClose    atomic.Int32
@@ -137,6 +138,9 @@ func (c *Chan) Send(msg []byte) error {
 	defer c.sendIn.Add(-1)
 	k := int(c.nSend.Add(1))
 	cp := append([]byte(nil), msg...)
+	if c.LogSends && c.onEvent != nil {
+		c.onEvent("chan-send", cp, nil)
+	}
 	c.mu.Lock()
 	c.Sent = append(c.Sent, cp)
 	c.mu.Unlock()
